@@ -156,11 +156,18 @@ def oracles(ctx: Ctx):
                 why = (f"work is not proportional to the input: a {len(m)}-octet blob took {dt:.1f} s and {drss} MB of additional memory "
                        f"(limits for inputs of this size: {WORK_SECONDS} s, {WORK_MBYTES} MB)")
             if why:
-                ctx.violation("failing-input", "oracle:hostile.real", {"unit": "hostile.real", "input": enc([roots, m])[-2000:], "why": why},
+                ctx.violation("failing-input", "oracle:hostile.real", {"unit": "hostile.real", "input": enc([roots, m]), "why": why},
                               key="hostile.real:" + why[:40])
                 ctx.oracle_runs += n
                 return
     ctx.oracle_runs += n
+
+
+def _impl_real(a):
+    return e2e.impl_unprotect(a, symbolic=False)
+
+
+ORACLE_REPLAY = {"hostile.real": (_impl_real, pred)}
 
 
 def search(ctx: Ctx):
